@@ -523,4 +523,65 @@ theorem auth_structural_facts_hold :
     Gen.MuxFacts.connAuthFramingByHandshake = true ∧ Gen.MuxFacts.transportAuthFramingByHandshake = true ∧
     Gen.MuxFacts.transportConnectClosesUnlessHandedOut = true := by decide
 
+/-! ## the control flow of the two `authenticateSASL` functions, re-extracted by symbolic execution
+
+`go/extract/saslplain/authflow.go` runs both functions symbolically over scenarios of call outcomes (handshake,
+`Mechanism.Start`, authenticate, `StateMachine.Next`: ok / EOF / other error, completed or not) — following if /
+switch / for / return and the conditions on `err`, `errors.Is(err, io.EOF)` and `completed`, whatever the spelling —
+and writes, per scenario, the calls made in order and the value returned (`Gen.dialerAuthFlow`,
+`Gen.transportAuthFlow`).  `modelFlow` computes the same from Model/Auth.lean (`react`), and the theorem says the
+extracted tables ARE the model's behaviour. -/
+
+def envOfToken : String → Option Env
+  | "hs:ok" => some (.reply 0 [] false)
+  | "hs:err" => some (.reply 33 [] false)
+  | "hs:eof" => some .eof
+  | "start:ok" => some (.mechStart (some [1]))
+  | "start:err" => some (.mechStart none)
+  | "auth:ok" => some (.reply 0 [] false)
+  | "auth:eof" => some .eof
+  | "auth:err" => some .ioerr
+  | "next:more" => some (.mechNext (some (false, [2])))
+  | "next:done" => some (.mechNext (some (true, [])))
+  | "next:err" => some (.mechNext none)
+  | _ => none
+
+def roleOfPhase : Phase → String
+  | .awaitHandshake _ _ => "hs"
+  | .awaitStart _ _ => "start"
+  | .awaitAuth _ _ => "auth"
+  | .awaitNext _ _ => "next"
+  | _ => "?"
+
+/-- the calls the model makes (one per environment answer it consumes) and what the function returns; the
+broker advertises SaslHandshake 0..0, so the exchange is un-framed and EOF maps to SASLAuthenticationFailed on
+both paths -/
+def modelFlowFrom (c : Cfg) : State → List String → List String → List String × String
+  | s, [], acc =>
+    (acc.reverse, match s.phase, s.result with
+      | .ready, _ => "nil"
+      | .failed, some (.kafka 58) => "SASLAuthenticationFailed"
+      | .failed, _ => "err"
+      | _, _ => "pending")
+  | s, t :: ts, acc =>
+    match envOfToken t with
+    | none => (acc.reverse, "bad-token")
+    | some e =>
+      match step c s e with
+      | none => (acc.reverse, "rejected")
+      | some s' => modelFlowFrom c s' ts (roleOfPhase s.phase :: acc)
+
+def modelFlow (p : Path) (tokens : List String) : List String × String :=
+  let c : Cfg := { path := p, sasl := true }
+  match step c (start c) (.versions 0 (some (0, 0)) none) with
+  | some s => modelFlowFrom c s tokens []
+  | none => ([], "rejected")
+
+/-- the extracted control flow of `(*Dialer).authenticateSASL` and of transport.go `authenticateSASL` is the
+model's, scenario by scenario (11 scenarios each: every failure position, one to three rounds) -/
+theorem auth_control_flow_extracted :
+    Gen.dialerAuthFlow.all (fun (sc, calls, ret) => modelFlow .dialer sc == (calls, ret)) = true ∧
+    Gen.transportAuthFlow.all (fun (sc, calls, ret) => modelFlow .transport sc == (calls, ret)) = true := by
+  decide
+
 end KV.C18
